@@ -73,6 +73,7 @@ add5={
 'C10':"Wave 5: the int-key branch of `Token.__setitem__` (`Token.set_bit`) is regenerated by the flattening pre-pass as `tok_setbit` and proved exact for all sizes/indices/values (`c10_setbit_exact`: bit i := value≠0, other bits untouched; `c10_setbit_rejects_bad_index`; `c10_setbit_readback`; any value outside {0,1} is silently stored as 1 — `c10_setbit_truncates_refuted`, only ppci caller passes 1), 840 correspondence cases on real token classes per run.",
 'C13':"Wave 5: `c13_holes_of_relaxation_ok` / `c13_holes_are_site_halves` discharge the former assumption on hole lists — for any object on which the candidate loop of `do_relaxations` succeeds, each hole is the second halfword of a relocation site, and when a section's relocation sites are ≥ 4 bytes apart (premise evaluated on every generated program) the sorted hole list given to `_apply_relaxation_holes` is sorted, disjoint and positive for every relocation order and subset shrunk; `replace_relocs` bookkeeping remains correspondence-only.",
 'C20':"Wave 5: decoders totally characterised on every byte iterator — `c20_decode_truncated` (no terminating byte, incl. empty ⇒ StopIteration), `c20_decode_total` (well-formed prefix decoded to its spec value with exact rest, else StopIteration) and `c20_decode_ok_inv` (any returned (v, rest) stems from exactly one well-formed encoding).",
+'C24':"Wave 5: the runtime object itself (`Model/Ir2PyRt.v`: heap/stack bytearrays, `get_memory` dispatch at the exported `HEAP_START`, `alloca`, `free`, `heap_top`; 45 scripts run on the emitted `IrPy` every run) — `c24_rt_alloca_store_load_free` (alloca n; store/load of any integer type inside the block exact, heap and older stack untouched, `free n` restores the state, for every state with stack below `HEAP_START`) and `c24_rt_heap_store_load`; memory instructions inside simulated functions, floats and ptr stay open.",
 'C27':"Wave 5: the enumerator-value loop `CContext._calculate_enum_values` is modelled (`Model/CEnum.v`, tie H, 160 enumerator lists per run through the real `get_enum_value`) and `c27_enum_values_exact` proves, for every enumerator list and data model, that each constant gets exactly its C11 6.7.2.2 value and that a diagnostic (never an internal error or a wrapped value) results exactly when a value is not representable as int.",
 'C33':"Wave 5: set-algebra laws as equalities of the returned canonical representations (`c33_canonical_ext`, `c33_union_laws` comm/assoc/idem/unit, `c33_inter_comm`, `c33_symdiff_law` a^b=(a|b)-(a&b), `c33_demorgan_law` a-(b|c)=(a-b)&(a-c), `c33_double_diff_law`), with `c33_result_sizes` so fuel hypotheses mention the inputs only; the same laws are run through the implementation's `==`/`hash` on every oracle pair.",
 'C34':"Wave 5: the task loop of `TaskRunner.run` with raising tasks (`Model/TasksExec.v`, tied by 1000 quick / 4225 thorough real runs with raising recording tasks): `c34_failure_blocks_dependants` (no dependant of the failed target starts), `c34_started_deps_completed` (every dependency of a started target has completed), `c34_no_failure_all_tasks_run` (a run without failure has run all tasks of exactly the reachable targets); `expand_macros`/`get_task` failures not modelled.",
